@@ -4,7 +4,7 @@
 use oal_compiler::spec::*;
 use oal_syntax::atom;
 use serde_json::{json, Map, Value};
-use std::collections::{BTreeMap, HashMap};
+use std::collections::BTreeMap;
 
 fn opt<T: Into<Value> + Clone>(o: &Option<T>) -> Value {
     match o {
@@ -13,11 +13,15 @@ fn opt<T: Into<Value> + Clone>(o: &Option<T>) -> Value {
     }
 }
 
-fn examples(e: &Option<HashMap<String, String>>) -> Value {
+/// Works for any map type the compiler uses for examples (hash map or ordered map).
+fn examples<'a, M>(e: &'a Option<M>) -> Value
+where
+    &'a M: IntoIterator<Item = (&'a String, &'a String)>,
+{
     match e {
         None => Value::Null,
         Some(m) => {
-            let b: BTreeMap<_, _> = m.iter().collect();
+            let b: BTreeMap<_, _> = m.into_iter().collect();
             json!(b)
         }
     }
